@@ -25,13 +25,14 @@ def obligations(tier):
         dict(name="sha1_rounds", harness="C32_sha1.c", entry="harness_rounds", defines=sd, unwind=17, timeout=600, desc="S2: each round macro == FIPS round function for arbitrary words"),
     ]
     # one five-round cut per obligation (measured 130-240 s each with cadical on a loaded box; four cuts in one query did not finish in 280 s)
-    cuts = range(16) if tier == "thorough" else (0, 3, 8, 15)
+    cuts = range(16)   # all cuts in both tiers: a change in any single round must be caught on every run
     for k in cuts:
         obs.append(dict(name="sha1_structure_cut%d" % k, harness="C32_sha1.c", entry="harness_structure", defines=sd + ["LIBEVENT_VERIF_SHA1_TRACE", "VP_CUT_LO=%d" % k, "VP_CUT_HI=%d" % k], unwind=81,
                         solver="cadical", timeout=900 if tier == "quick" else 2400, mem_gb=4,
                         desc="S3: rounds %d..%d of SHA1Transform == FIPS rounds over the FIPS schedule (cut at the hook's trace points) + trace order + feed-forward, every chaining value and block" % (5 * k, 5 * k + 4)))
-    ranges = [(0, 8), (9, 20), (21, 32), (33, 44), (45, 55), (56, 63), (64, 70)] if tier == "thorough" else [(0, 4), (54, 57), (59, 61), (63, 65)]
-    for lo, hi in ranges:
-        obs.append(dict(name="sha1_driver_%d_%d" % (lo, hi), harness="C32_sha1.c", entry="harness_driver", defines=sd + ["VP_LEN_LO=%d" % lo, "VP_LEN_HI=%d" % hi], unwind=200, timeout=900, mem_gb=8, cbmc=["--object-bits", "12"],
-                        desc="S4: builtin_SHA1 == FIPS padding + SHA1Transform + big-endian output for every message of each length %d..%d" % (lo, hi)))
+    lens = range(0, 71) if tier == "thorough" else (0, 1, 55, 56, 60, 63, 64)
+    for L in lens:
+        obs.append(dict(name="sha1_driver_len%d" % L, harness="C32_sha1.c", entry="harness_driver", defines=sd + ["VP_LEN=%d" % L, "VP_LEN_HI=%d" % max(L, 1)], unwind=200, timeout=600, mem_gb=4,
+                        instrument=[["--replace-calls", "SHA1Transform:vp_rec_transform"]], cbmc=["--object-bits", "10"],
+                        desc="S4: builtin_SHA1 on every message of %d bytes feeds exactly the FIPS-padded blocks from the FIPS IV into one chaining state and outputs it big-endian (compression function abstracted)" % L))
     return obs
